@@ -155,6 +155,9 @@ func (c *fconn) Send(p packet.Generic, async bool) error {
 		}
 	}
 	w.emit("cl send "+w.th()+" "+b2s(ok)+" "+wire.ShowPacket(q), ev{kind: "send", th: w.th(), pkt: q, ok: ok, lost: lost || !ok})
+	if w.recSent && ok && !lost {
+		w.sent = append(w.sent, q)
+	}
 	if cc := w.cur; cc != nil && w.th() == "a" && ok {
 		cc.sentOK = true
 	}
@@ -313,6 +316,11 @@ func (s *wsession) LookupPacket(d session.Direction, id packet.ID) (packet.Gener
 	w := s.w
 	w.mu.Lock()
 	defer w.mu.Unlock()
+	if (d == session.Outgoing) != (w.th() == "a") {
+		// the model attributes lookups by direction: the outgoing store is looked up by the exported methods only
+		// (Client.nextID), the incoming store by the processor only (processPubrel); anything else is unknown to it
+		w.emit(fmt.Sprintf("cl lookup-by %s %s %d", w.th(), dirS(d), id), ev{kind: "lookup", th: w.th(), dir: dirS(d), id: id, ok: true})
+	}
 	if w.failNow("lookup/" + dirS(d)) {
 		w.emit(fmt.Sprintf("cl lookup %s %d fail", dirS(d), id), ev{kind: "lookup", th: w.th(), dir: dirS(d), id: id, ok: false})
 		return nil, errInjected
@@ -424,6 +432,49 @@ type World struct {
 
 	peer *peer
 	hung bool
+
+	// a very long, regular case (the packet-id wrap-around): no event history and none of the general oracles (their
+	// bookkeeping is quadratic in the length of a case), the trace keeps its head and its tail only
+	light  bool
+	mute   bool // the rest of the case is not submitted to the model
+	tail   []string
+	elided int
+	recSent bool // remember what reaches the peer
+	sent   []packet.Generic
+
+	kept []*keptMsg // every message handed to the callback: the pointer, and a deep snapshot taken at that moment
+}
+
+// keptMsg: an application may keep the *packet.Message it was handed (the callback must not block: queue it, let a worker
+// look at it later); what it reads later must still be the message it was given (C10: each message is passed to the
+// application exactly once, intact)
+type keptMsg struct {
+	p        *packet.Message
+	snap     packet.Message
+	n        int // ordinal of the callback
+	reported bool
+}
+
+func sameMessage(a, b *packet.Message) bool {
+	return a.Topic == b.Topic && bytes.Equal(a.Payload, b.Payload) && a.QOS == b.QOS && a.Retain == b.Retain
+}
+
+// checkKept (w.mu held) compares every kept pointer with its snapshot; returns the hits to report (outside the lock)
+func (w *World) checkKept(when string) []string {
+	var hits []string
+	for _, k := range w.kept {
+		if !k.reported && !sameMessage(k.p, &k.snap) {
+			k.reported = true
+			hits = append(hits, fmt.Sprintf("the message handed to the application in callback #%d was %s; %s the same *packet.Message reads %s: the client changed a message it had already delivered", k.n, wire.ShowMessage(&k.snap), when, wire.ShowMessage(k.p)))
+		}
+	}
+	return hits
+}
+
+func (w *World) reportKept(hits []string) {
+	for _, h := range hits {
+		w.hit("callback-message-mutated", h)
+	}
 }
 
 func newWorld(t *testing.T, o *out.W, prop string) *World {
@@ -452,20 +503,50 @@ func (w *World) emit(line string, e ev) {
 	if e.txt == "" {
 		e.txt = line
 	}
-	w.hist = append(w.hist, e)
+	if !w.light {
+		w.hist = append(w.hist, e)
+	}
 	if w.hung {
 		return // after a recorded hang the client's goroutines are released artificially: not behaviour of the code
 	}
-	w.trace = append(w.trace, line)
-	w.o.Op(line, "ok")
+	w.traceAdd(line)
+	if !w.mute {
+		w.o.Op(line, "ok")
+	}
+}
+
+// traceAdd (w.mu held): the replay of a light case keeps the first 120 and the last 200-400 lines
+func (w *World) traceAdd(line string) {
+	if !w.light || len(w.trace) < 120 {
+		w.trace = append(w.trace, line)
+		return
+	}
+	w.tail = append(w.tail, line)
+	if len(w.tail) >= 400 {
+		w.elided += 200
+		w.tail = append(w.tail[:0], w.tail[200:]...)
+	}
 }
 
 func (w *World) note(s string) {
 	w.mu.Lock()
-	w.notes = append(w.notes, s)
-	w.trace = append(w.trace, "# "+s)
+	if !w.light {
+		w.notes = append(w.notes, s)
+	}
+	w.traceAdd("# " + s)
 	w.mu.Unlock()
 	w.o.Count("step/" + strings.SplitN(s, " ", 2)[0])
+}
+
+// muteModel: from here on the case is not submitted to the Lean model (the monitors go on); said in both files
+func (w *World) muteModel(why string) {
+	w.mu.Lock()
+	if !w.mute {
+		w.mute = true
+		w.o.Op("# "+why, "# "+why)
+		w.traceAdd("# " + why)
+	}
+	w.mu.Unlock()
 }
 
 // th classifies the calling goroutine (w.mu held)
@@ -483,6 +564,12 @@ func (w *World) th() string {
 func (w *World) hit(kind, detail string) {
 	w.mu.Lock()
 	rp := append([]string{}, w.trace...)
+	if w.light && len(w.tail) > 0 {
+		if w.elided > 0 {
+			rp = append(rp, fmt.Sprintf("# ... %d lines elided: the round shown above repeated (the next QoS 1 publish takes the next packet id, is stored, sent and acknowledged at once; the first publish stays unacknowledged); the whole sequence is regenerated deterministically by the replay command ...", w.elided))
+		}
+		rp = append(rp, w.tail...)
+	}
 	w.mu.Unlock()
 	w.o.Monitor(w.prop, kind, detail, rp)
 }
@@ -500,6 +587,9 @@ func (w *World) settle() {
 		w.op("cl settle " + p)
 	} else {
 		w.op("cl settle")
+	}
+	if w.light {
+		return // the case has its own checks
 	}
 	w.pollFutures()
 	w.monitorQuiescent()
@@ -527,11 +617,19 @@ func (w *World) NewClient() {
 
 func (w *World) callback(msg *packet.Message, err error) error {
 	w.mu.Lock()
-	defer w.mu.Unlock()
+	var mutated []string
+	defer func() {
+		w.mu.Unlock()
+		w.reportKept(mutated)
+	}()
 	if err != nil {
 		w.emit("cl cberr "+w.th(), ev{kind: "cberr", th: w.th()})
 		return nil
 	}
+	// the messages delivered earlier must not have changed by the time the next one is delivered; then keep this one
+	mutated = w.checkKept(fmt.Sprintf("at callback #%d", len(w.kept)+1))
+	w.kept = append(w.kept, &keptMsg{p: msg, n: len(w.kept) + 1,
+		snap: packet.Message{Topic: msg.Topic, Payload: append([]byte(nil), msg.Payload...), QOS: msg.QOS, Retain: msg.Retain}})
 	ok := true
 	if w.cbFailN > 0 {
 		w.cbFailN--
@@ -557,6 +655,10 @@ func retKind(err error, okKind string) string {
 		return "notconnected"
 	case errors.Is(err, errDial):
 		return "dial"
+	case err.Error() == "packet ids exhausted":
+		// client.ErrPacketIDsExhausted; matched by its text because trees from before that repair, against which this
+		// harness must still build, do not have the variable
+		return "exhausted"
 	}
 	return "err"
 }
@@ -833,6 +935,12 @@ func resString(r interface{}) string {
 // pollFutures looks at every future handed out so far and calls every accessor (under recover)
 func (w *World) pollFutures() {
 	for i, fr := range w.futs {
+		w.pollOne(i, fr)
+	}
+}
+
+func (w *World) pollOne(i int, fr *futRec) {
+	{
 		st := "pending"
 		switch err := fr.f.Wait(time.Nanosecond); {
 		case err == nil:
@@ -882,7 +990,9 @@ func (w *World) pollFutures() {
 		if st != fr.last {
 			fr.last = st
 			w.op(fmt.Sprintf("cl fut %d %s", i, st))
-			w.monitorResolved(i, fr, st)
+			if !w.light {
+				w.monitorResolved(i, fr, st)
+			}
 		}
 	}
 }
